@@ -41,7 +41,8 @@ COMPONENTS = {
 PROBES = ["estimate strictly inside (1, N)", "estimate == N (never crosses)", "estimate == 1", "non-constant pilot",
           "prefix crosses", "two-vote overstatement staged", "one-vote overstatement staged", "pilot shorter than N/2",
           "interleave with zero small", "interleave with zero med", "multi-assertion contest",
-          "p-value equals the risk limit exactly"]
+          "p-value equals the risk limit exactly", "super-majority contest with assumed error rates",
+          "interleaving asked for again after the caller overwrote the first answer", "comparison contest next to ONEAudit contests"]
 
 PAIRS = [("w", "w"), ("w", "blank"), ("w", "l"), ("blank", "w"), ("blank", "blank"), ("blank", "l"), ("l", "w"),
          ("l", "blank"), ("l", "l")]
@@ -78,8 +79,10 @@ def generate(rng, tier):
             votes[cid] = ["w" if rng.chance(pw) else rng.pick(["l", "blank"]) for _ in range(N)]
         oneaudit = rng.chance(0.4)
         if oneaudit:
-            for cs in contests.values():
-                cs["audit_type"] = W.ONEAUDIT
+            mixed = rng.chance(0.4)  # audit type is a per-contest attribute: ONEAudit contests next to comparison contests
+            for j, cs in enumerate(contests.values()):
+                if not mixed or j == 0 or rng.chance(0.3):
+                    cs["audit_type"] = W.ONEAUDIT
         return {"kind": kind, "contests": contests, "votes": votes, "N": N, "first": rng.randint(2, N),
                 "oneaudit": oneaudit, "pool_every": rng.pick([0, 2, 3]), "batch": rng.pick([3, 5, 8]),
                 "err": [i for i in range(N) if rng.chance(rng.pick([0.0, 0.05]))],
@@ -133,8 +136,15 @@ def generate(rng, tier):
             pattern[0] = ["w", "w"]
         case["pattern"] = pattern
     elif kind == "rates":
+        if rng.chance(0.25):
+            # a super-majority contest: the assorter's bound is 1/(2 share), so "0" and the two-vote value differ from plurality's
+            cs["choice_function"] = W.SUPERMAJORITY
+            cs["share_to_win"] = rng.pick([0.4, 0.55, 0.6])
+            cs["sm_direct"] = rng.chance(0.5)
         case["rate_1"] = rng.pick([0, 0, 1 / rng.randint(2, 40), 0.3, 0.15, 0.001])
         case["rate_2"] = rng.pick([0, 0, 0, 1 / rng.randint(3, 60), 0.07])
+        if cs["choice_function"] == W.SUPERMAJORITY:
+            case["rate_2"] = rng.pick([0, 1 / rng.randint(3, 30), 0.07, 0.2, 0.34])
         case["filler"] = ["w" if rng.chance(pw) else rng.pick(["l", "blank"]) for _ in range(N)]
         case["via"] = rng.pick(["assertion", "contest", "audit"])
     else:  # polling
@@ -256,6 +266,18 @@ def execute(case):
                         out.violate("C16.f", "bunched", f"interleave_values({ns_},{nm},{nb}): after {i} positions {placed} values equal to "
                                                         f"{val} have been placed, their share would be {i * n_v / N_:.1f}")
                         break
+        # the caller owns what it was given: it may shuffle or overwrite the array; asking again gives a fresh population
+        try:
+            x1 = ns.Assertion.interleave_values(ns_, nm, nb, small=s, med=m, big=b)
+            x1[:] = x1[::-1].copy()
+            x1[: len(x1) // 2] = b
+            x2 = [float(v) for v in ns.Assertion.interleave_values(ns_, nm, nb, small=s, med=m, big=b)]
+            out.probe("interleaving asked for again after the caller overwrote the first answer")
+            if x2 != x:
+                out.violate("C16.f", "second-call", f"interleave_values({ns_},{nm},{nb}) asked again after the caller overwrote the first "
+                                                    f"answer gives counts {(x2.count(s), x2.count(m), x2.count(b))}, first {x2[:6]} (at first {x[:6]})")
+        except Exception as e:
+            out.raised("interleave_values(again)", e)
         out.nontrivial = ns_ > 0 and nm > 0
         return out
 
@@ -383,9 +405,13 @@ def execute(case):
         filler = case["filler"]
         cvr_kind = list(filler)
         mvr_kind = list(filler)
+        sm = cs["choice_function"] == W.SUPERMAJORITY
+        if sm:
+            out.probe("super-majority contest with assumed error rates")
         if r1:
             for i in range(0, N, int(1 / r1)):
-                cvr_kind[i], mvr_kind[i] = "w", "blank"
+                # an overstatement of 1/2 in assorter units: winner -> no vote (plurality), no vote -> loser (super-majority)
+                cvr_kind[i], mvr_kind[i] = ("blank", "l") if sm else ("w", "blank")
                 out.probe("one-vote overstatement staged")
         if r2:
             for i in range(0, N, int(1 / r2)):
@@ -397,7 +423,7 @@ def execute(case):
         with W.quiet():
             ns.Assertion.set_all_margins_from_cvrs(audit=audit, contests=contests, cvr_list=cvrs)
         con = contests["K0"]
-        target = f"{cands[0]} v {cands[1]}"
+        target = f"{cands[0]} v ALL_OTHERS" if sm else f"{cands[0]} v {cands[1]}"
         if any(a.margin <= 0 for a in con.assertions.values()):
             out.ev("skip", "non-positive margin")
             return out
@@ -549,7 +575,10 @@ def execute_audit(ns, out, case):
     with W.quiet():
         if oneaudit:
             pools = ns.CVR.pool_contests(cvrs)
-            for con in contests.values():
+            for cid, con in contests.items():
+                if case["contests"][cid]["audit_type"] != W.ONEAUDIT:
+                    out.probe("comparison contest next to ONEAudit contests")
+                    continue
                 for asn in con.assertions.values():
                     asn.assorter.set_tally_pool_means(cvr_list=cvrs, tally_pools=pools, use_style=True)
         ns.Assertion.set_all_margins_from_cvrs(audit=audit, contests=contests, cvr_list=cvrs)
@@ -566,7 +595,7 @@ def execute_audit(ns, out, case):
                 if asn.proved:
                     continue
                 with W.quiet():
-                    if data_of is None and oneaudit:
+                    if data_of is None and case["contests"][cid]["audit_type"] == W.ONEAUDIT:
                         # the ONEAudit hypothetical: this assertion's own CVR-vs-batch-mean values, a one-vote overstatement at
                         # every int(1/rate_1)-th position and a two-vote overstatement at every int(1/rate_2)-th (the latter
                         # prevailing where both fall), then the first crossing on that sequence
